@@ -52,6 +52,18 @@ theorem facts_agree_with_model :
       | some f => f.touchesShared && !f.accessBeforeLock && (!f.writesShared || m.writes)
       | none => false) = true := by decide +kernel
 
+/-- **F**: the bodies of the nine repository methods are the ones the sequential model (`specStep` / `microRun`: store
+appends, find and delete go by ID) was written from.  The lock census above cannot see a change of *what* a method
+does under its lock — e.g. `DeleteBatch` removing return batches by content instead of by ID (seed C18-j); this pin
+sends such an edit to the oracle's search. -/
+theorem repo_methods_as_modelled :
+    Ach.Gen.repoMethods.map (fun f => (f.method, f.hash)) = [
+      ("DeleteBatch", 257065001440626611), ("DeleteFile", 10664202471910957164),
+      ("FindAllBatches", 4695842734299230670), ("FindAllFiles", 5390125899727251336),
+      ("FindBatch", 751639383380015541), ("FindFile", 14180771047204466752),
+      ("StoreBatch", 10369522212633806333), ("StoreFile", 5238297674936942396),
+      ("cleanupOldFiles", 5924950020328261761)] := by decide +kernel
+
 /-- **repo_lock_invariant** — for any lock kinds: holders = threads inside a section of that kind; readers are not
 counted twice; a writer excludes all other holders -/
 theorem repo_lock_invariant {kind : Method → LockKind} {progs : Nat → List Op} {s : State}
